@@ -69,7 +69,7 @@ def _bc(it, clsname, grid, axis, upper, rank=0, normal=False, value=None, homoge
     return Instance(cls, attrs), par
 
 
-def ghost_unit(clsname, num_axes, axis, upper, normal=False, inhomogeneous=False, flip=False):
+def ghost_unit(clsname, num_axes, axis, upper, normal=False, inhomogeneous=False, flip=False, route="interpreted"):
     kind = KINDS[clsname]
     second = kind == "curvature"
 
@@ -95,7 +95,14 @@ def ghost_unit(clsname, num_axes, axis, upper, normal=False, inhomogeneous=False
             comps = (num_axes,) if normal else ()
             data = sym_array("data_full", comps + tuple(n + 2 for n in N))
             before = data.buf.content
-            it.call(it.getattr(bc, "set_ghost_cells"), [data], {})
+            if route == "interpreted":
+                it.call(it.getattr(bc, "set_ghost_cells"), [data], {})
+            else:
+                # compiled route: NumbaBackend._make_local_ghost_cell_setter + the virtual-point evaluators of _boundaries.py
+                be = Instance(it.load_module("pde.backends.numba.backend").get("NumbaBackend"), {})
+                setter = it.call(it.getattr(be, "_make_local_ghost_cell_setter"), [bc], {})
+                it.call(setter, [data], {})
+                U.absorb(it)
             return data, before, N, dx, par, comps, other
 
         for p, res in enumerate(explore_paths(U, body)):
@@ -216,6 +223,19 @@ def _units():
                     units.append((f"Normal{cls}.set_ghost_cells[axes=2,axis={axis},upper={upper}]", ghost_unit(cls, 2, axis, upper, normal=True)))
                     if cls != "MixedBC":
                         units.append((f"{cls}.set_ghost_cells[axes=2,axis={axis},upper={upper},inhomogeneous]", ghost_unit(cls, 2, axis, upper, inhomogeneous=True)))
+    # compiled (numba) route: same contract object, same configurations (1-3 axes)
+    for cls in KINDS:
+        for num_axes in (1, 2, 3):
+            for axis in range(num_axes):
+                for upper in (False, True):
+                    if num_axes == 3 and cls in ("NeumannBC", "_PeriodicBC") and not upper:
+                        continue  # keep the quick tier short: 3-axis units for every class on one side, all sides for two classes
+                    units.append((f"compiled.{cls}.ghost_cell_setter[axes={num_axes},axis={axis},upper={upper}]", ghost_unit(cls, num_axes, axis, upper, route="compiled")))
+        if cls != "_PeriodicBC":
+            for axis in (0, 1):
+                units.append((f"compiled.Normal{cls}.ghost_cell_setter[axes=2,axis={axis},upper=True]", ghost_unit(cls, 2, axis, True, normal=True, route="compiled")))
+                if cls != "MixedBC":
+                    units.append((f"compiled.{cls}.ghost_cell_setter[axes=2,axis={axis},upper=False,inhomogeneous]", ghost_unit(cls, 2, axis, False, inhomogeneous=True, route="compiled")))
     return units
 
 
@@ -238,8 +258,183 @@ def bounded(tier, seed):
 TRUSTED = ["conditions taken verbatim from the statement (pdv/contracts/C02.py: condition)"]
 ASSUMPTIONS = ["finite Robin coefficient with 2 + dx*gamma != 0 (gamma = infinity special case outside the real model)", "NaN/Inf-free values: np.isfinite is true"]
 NOT_COVERED = [
-    "compiled (numba) ghost-cell setters and virtual-point evaluators: bounded native comparison with the interpreted route only",
-    "expression BCs (sympy meaning of the user text) and UserBC: bounded native check only",
-    "BC specification parsing (wildcards, named sides, aliases): bounded native check only",
-    "3-axis grids and rank-2 fields in the proof (1- and 2-axis, rank 0 / normal rank 1 are proved; the slicing code is rank/axis generic)",
+    "UserBC, value_is_linked (value read through a memory address), gamma = infinity: bounded native check only",
+    "the sympy meaning of expression texts (C11): only the arithmetic templates around the user text are proved",
+    "BC specification parsing (wildcards, named sides, aliases, periodicity checks): bounded native check only",
+    "rank-2 fields and 3-axis grids on the interpreted route (the slicing code is rank/axis generic; the compiled route is proved for 1-3 axes)",
 ]
+
+
+# ------------------------------------------------------------------ expression boundary conditions
+def expression_function_unit(route, target):
+    """callable flavour: virtual_from_value / _derivative / _mixed with the user functions uninterpreted"""
+    kind = {"value": "value", "derivative": "derivative", "mixed": "mixed"}[target]
+
+    def unit(U):
+        def body(it):
+            VF = z3.Function("user_value", z3.RealSort(), z3.RealSort(), z3.RealSort(), z3.RealSort(), z3.RealSort())
+            CF = z3.Function("user_const", z3.RealSort(), z3.RealSort(), z3.RealSort(), z3.RealSort(), z3.RealSort())
+            calls = []
+
+            def wrap(F):
+                def f(*args):
+                    calls.append(args)
+                    a = [to_z3(to_real(x)) for x in args]
+                    while len(a) < 4:
+                        a.insert(1, z3.RealVal(0))
+                    return F(*a[:4])
+                return f
+
+            vf, cf = wrap(VF), wrap(CF)
+            cls = it.load_module(LOCAL).get("ExpressionBC")
+            bc = Instance(cls, {"_is_func": True, "_input": {"target": target, "value_expr": vf, "const_expr": cf, "user_funcs": None}})
+            if route == "interpreted":
+                fn = it.call(it.getattr(bc, "_make_function"), [], {})
+            else:
+                it.overrides["_prepare_function"] = lambda bc_, func, backend=None: func
+                fn = it.call(it.get_function("pde.backends.numba._boundaries", "_make_expression_function_from_userfunc"), [bc], {"backend": Opaque("backend")})
+            c, dx, x, t = z3.Real("adjacent_value"), z3.Real("dx"), z3.Real("x"), z3.Real("t")
+            it.ctx.assume(dx > 0)
+            g = it.call(fn, [c, dx, x, t], {})
+            return g, c, dx, x, t, VF, CF, calls
+
+        for p, res in enumerate(explore_paths(U, body)):
+            P = prem_of(res.ctx)
+            nm = f"path{p}"
+            if res.outcome != "return":
+                U.prove(f"{nm}.returns_normally", P, z3.BoolVal(False), info={"exc": str(res.exc)})
+                continue
+            g, c, dx, x, t, VF, CF, calls = res.value
+            g = to_z3(to_real(g))
+            # the user functions receive (adjacent value, dx, coordinates.., t)
+            U.prove(f"{nm}.user_functions_receive_(value,dx,x,t)", P,
+                    z3.And(*[z3.And(z3.BoolVal(len(a) == 4), to_z3(to_real(a[0])) == c, to_z3(to_real(a[1])) == dx, to_z3(to_real(a[2])) == x, to_z3(to_real(a[3])) == t) if len(a) == 4 else z3.BoolVal(False) for a in calls]) if calls else z3.BoolVal(False))
+            par = {"value": VF(c, dx, x, t), "const": CF(c, dx, x, t)}
+            extra = [2 + dx * par["value"] != 0] if kind == "mixed" else []
+            U.prove(f"{nm}.virtual_point_satisfies_the_{kind}_condition_for_arbitrary_user_functions", P + extra, condition(kind, g, c, c, dx, par), info={"prefer": "ratnf"} if kind == "mixed" else None)
+
+    return unit
+
+
+def _term_from_text(text, env):
+    """evaluate the arithmetic text (valid Python: + - * / parentheses, names, numbers) on z3 terms"""
+    import ast as _ast
+
+    def ev(n):
+        if isinstance(n, _ast.Expression):
+            return ev(n.body)
+        if isinstance(n, _ast.BinOp):
+            a, b = ev(n.left), ev(n.right)
+            if isinstance(n.op, _ast.Add):
+                return a + b
+            if isinstance(n.op, _ast.Sub):
+                return a - b
+            if isinstance(n.op, _ast.Mult):
+                return a * b
+            if isinstance(n.op, _ast.Div):
+                return a / b
+        if isinstance(n, _ast.UnaryOp) and isinstance(n.op, _ast.USub):
+            return -ev(n.operand)
+        if isinstance(n, _ast.Name):
+            return env[n.id]
+        if isinstance(n, _ast.Constant):
+            return z3.RealVal(n.value)
+        raise ValueError(f"unsupported syntax in expression template: {_ast.dump(n)[:80]}")
+
+    return ev(_ast.parse(text, mode="eval"))
+
+
+def expression_template_unit(target):
+    """string flavour: the text handed to the expression parser.  The user texts are placeholders WITH a
+    top-level operator (`V1 + V2`, `K1 - K2`), so a missing pair of parentheses changes the meaning."""
+    def unit(U):
+        def body(it):
+            cls = it.load_module(LOCAL).get("ExpressionBC")
+            N = z3.Int("N")
+            it.ctx.assume(N >= 1)
+            caxes = Instance(None, {"_axes_alt_repl": {}}, name="coordinates")
+            grid = Instance(None, {"axes": ["x"], "dim": 1, "num_axes": 1, "shape": (N,), "c": caxes,
+                                   "discretization": fresh_array("dx", (1,), lambda idx: z3.Real("dx")),
+                                   "_boundary_coordinates": lambda axis=None, upper=None: sym_array("coords", (1,))}, name="grid")
+            texts = []
+
+            def ScalarExpression(expression, signature=None, user_funcs=None, repl=None, **kw):
+                texts.append((expression, signature))
+                return Instance(None, {"__call__": lambda *a: 0, "depends_on": lambda v: False}, name="ScalarExpression")
+
+            it.overrides["ScalarExpression"] = ScalarExpression
+            it.contracts[(LOCAL, "BCBase.__init__")] = lambda interp, args, kw: (args[0].attrs.update({"grid": args[1], "axis": args[2], "upper": args[3], "rank": kw.get("rank", 0), "normal": False}), None)[1]
+            bc = it.instantiate(cls, [grid, 0, True], {"rank": 0, "value": "V1 + V2", "const": "K1 - K2", "target": target})
+            return texts
+
+        for p, res in enumerate(explore_paths(U, body)):
+            P = prem_of(res.ctx)
+            nm = f"path{p}"
+            if res.outcome != "return":
+                U.prove(f"{nm}.constructor_returns_normally", P, z3.BoolVal(False), info={"exc": str(res.exc)})
+                continue
+            texts = res.value
+            ok = len(texts) == 1 and isinstance(texts[0][0], str) and list(texts[0][1] or []) == ["value", "dx", "x", "t"]
+            U.prove(f"{nm}.one_expression_with_signature_(value,dx,x,t)", P, z3.BoolVal(ok))
+            if not ok:
+                continue
+            env = {k: z3.Real(k) for k in ("V1", "V2", "K1", "K2", "dx", "value", "x", "t")}
+            try:
+                g = _term_from_text(texts[0][0], env)
+            except Exception as e:
+                U.prove(f"{nm}.template_is_plain_arithmetic", P, z3.BoolVal(False), info={"text": texts[0][0], "error": str(e)})
+                continue
+            par = {"value": env["V1"] + env["V2"], "const": env["K1"] - env["K2"]}
+            c, dx = env["value"], env["dx"]
+            extra = [dx > 0] + ([2 + dx * par["value"] != 0] if target == "mixed" else [])
+            U.prove(f"{nm}.template_text_satisfies_the_{target}_condition_with_the_user_text_as_a_whole", P + extra, condition(target, g, c, c, dx, par),
+                    info={"text": texts[0][0], "prefer": "ratnf"} if target == "mixed" else {"text": texts[0][0]})
+        U.assume_note("sympy evaluates + - * / and parentheses of the template as written; what the user text means is C11")
+
+    return unit
+
+
+UNITS += [(f"{r}.expression_function[{t}]", expression_function_unit(r, t)) for r in ("interpreted", "compiled") for t in ("value", "derivative", "mixed")]
+UNITS += [(f"expression_template[{t}]", expression_template_unit(t)) for t in ("value", "derivative", "mixed")]
+
+
+def copy_unit(clsname, with_upper):
+    """bc.copy(upper=..) builds the same class with every parameter carried over (copies are what
+    BCBase.from_data and BoundariesList.copy hand to the ghost-cell setters)"""
+    def unit(U):
+        def body(it):
+            cls = it.load_module(LOCAL).get(clsname)
+            grid = Instance(None, {}, name="grid")
+            attrs = {"grid": grid, "axis": z3.Int("axis"), "upper": z3.Bool("upper"), "rank": z3.Int("rank"), "value": z3.Real("value"),
+                     "const": z3.Real("const"), "flip_sign": z3.Bool("flip"), "value_is_linked": False, "homogeneous": True}
+            bc = Instance(cls, attrs)
+            made = []
+            for c in cls.mro:
+                if "__init__" in c.members:
+                    it.contracts[(c.module.name, f"{c.name}.__init__")] = lambda interp, args, kw: made.append(kw)
+                    break
+            new_upper = z3.Bool("new_upper")
+            r = it.call(it.getattr(bc, "copy"), [], {"upper": new_upper} if with_upper else {})
+            return made, attrs, r, cls, new_upper
+
+        for p, res in enumerate(explore_paths(U, body)):
+            P = prem_of(res.ctx)
+            nm = f"path{p}"
+            if res.outcome != "return":
+                U.prove(f"{nm}.returns_normally", P, z3.BoolVal(False), info={"exc": str(res.exc)})
+                continue
+            made, attrs, r, cls, new_upper = res.value
+            ok = len(made) == 1 and isinstance(r, Instance) and r.cls is cls and made[0].get("grid") is attrs["grid"]
+            U.prove(f"{nm}.same_class_same_grid", P, z3.BoolVal(ok))
+            if not ok:
+                continue
+            kw = made[0]
+            need = ["axis"] + (["flip_sign"] if clsname == "_PeriodicBC" else ["rank", "value"]) + (["const"] if clsname == "MixedBC" else [])
+            for key in need:
+                U.prove(f"{nm}.{key}_is_carried_over", P, to_z3(kw[key]) == to_z3(attrs[key]) if key in kw else z3.BoolVal(False))
+            U.prove(f"{nm}.upper_is_the_requested_side", P, to_z3(kw.get("upper")) == (new_upper if with_upper else attrs["upper"]) if "upper" in kw else z3.BoolVal(False))
+
+    return unit
+
+
+UNITS += [(f"{c}.copy[upper={'given' if w else 'kept'}]", copy_unit(c, w)) for c in ("DirichletBC", "NeumannBC", "MixedBC", "CurvatureBC", "_PeriodicBC") for w in (False, True)]
